@@ -336,6 +336,18 @@ func compareInst(r *enc.Row, d enc.Desc, e *enc.Expected, in *insts.Inst) []mism
 			if r.Operand("vsrc1") != nil {
 				sel("src1_sel", in.Src1Sel, d.F["src1_sel"])
 			}
+			// a decode that succeeds must carry every modifier the SDWA dword encodes (the decoder may instead raise
+			// its not-implemented diagnostic, which is accepted above; what it may not do is drop one silently)
+			mod("sdwa-src0_sext", b2u(in.Src0Sext), d.F["src0_sext"])
+			mod("sdwa-src0_neg", b2u(in.Src0Neg), d.F["src0_neg"])
+			mod("sdwa-src0_abs", b2u(in.Src0Abs), d.F["src0_abs"])
+			if r.Operand("vsrc1") != nil {
+				mod("sdwa-src1_sext", b2u(in.Src1Sext), d.F["src1_sext"])
+				mod("sdwa-src1_neg", b2u(in.Src1Neg), d.F["src1_neg"])
+				mod("sdwa-src1_abs", b2u(in.Src1Abs), d.F["src1_abs"])
+			}
+			mod("sdwa-clamp", b2u(in.Clamp), d.F["sdwa_clamp"])
+			mod("sdwa-omod", uint32(in.Omod), d.F["sdwa_omod"])
 		}
 	} else if in.IsSdwa {
 		add("sdwa/spurious", "IsSdwa=true for a non-SDWA encoding")
